@@ -3,3 +3,4 @@ pub mod c06;
 pub mod c07;
 pub mod c09;
 pub mod c19;
+pub mod c04;
